@@ -203,3 +203,185 @@ Example from_str_groups_example :
                 it_legacy := [] |})
   = [[97; 98]; [99]].
 Proof. reflexivity. Qed.
+
+(* ================================================================== second level: bucket tables, processes, positions *)
+
+Lemma t_iter_perm hash sd t : Permutation (t_ents t) (t_iter hash sd t).
+Proof. apply sort_by_perm. Qed.
+
+Lemma t_iter_sorted hash sd t :
+  Sorted (fun a b => bucket hash sd (t_cap t) (fst a) <= bucket hash sd (t_cap t) (fst b)) (t_iter hash sd t).
+Proof. apply (sort_by_sorted (fun e : str * list str => bucket hash sd (t_cap t) (fst e))). Qed.
+
+(** the bucket table refines the association-list model: same entries, same insertion order *)
+Lemma t_entry_push_ents k v t : t_ents (t_entry_push k v t) = hm_entry_push k v (t_ents t).
+Proof. reflexivity. Qed.
+Lemma t_insert_ents k t : t_ents (t_insert k t) = hs_insert k (t_ents t).
+Proof. reflexivity. Qed.
+Lemma t_extend_ents ks t : t_ents (t_extend ks t) = fold_left (fun s k => hs_insert k s) ks (t_ents t).
+Proof.
+  revert t; induction ks as [|k r IH]; intros t; [reflexivity|]. cbn [t_extend fold_left]. apply IH.
+Qed.
+Lemma t_drain_keeps_cap hash sd t : t_cap (snd (t_drain hash sd t)) = t_cap t /\ t_ents (snd (t_drain hash sd t)) = [].
+Proof. split; reflexivity. Qed.
+
+(** bucket counts never shrink *)
+Lemma grow_fuel_ge fuel cap len : cap <= grow_fuel fuel cap len.
+Proof.
+  revert cap; induction fuel as [|k IH]; intros cap; cbn [grow_fuel]; [lia|].
+  destruct (len * 8 <=? cap * 7); [lia|].
+  eapply N.le_trans; [|apply IH]. destruct (N.eqb_spec cap 0); lia.
+Qed.
+Lemma t_fit_ge cap len : cap <= t_fit cap len.
+Proof. apply grow_fuel_ge. Qed.
+
+Lemma facts_ok_start_table fs scratch : facts_ok fs = true -> start_table fs scratch = t_new.
+Proof.
+  intros H. apply facts_ok_parts in H as (_ & _ & _ & Hl). unfold start_table. rewrite Hl. reflexivity.
+Qed.
+
+Lemma expand_model_b_pure E fs s h scratch x :
+  facts_ok fs = true -> expand_model_b E fs s h scratch x = expand_pure_b E x.
+Proof.
+  intros H. unfold expand_model_b, expand_pure_b.
+  rewrite (facts_ok_hasher_at fs (fst x) H), (facts_ok_seed_leak fs (fst x) s H), (facts_ok_history fs h H),
+          (facts_ok_start_table fs scratch H).
+  cbn [build_hasher]. rewrite !app_nil_r. reflexivity.
+Qed.
+
+(** THE INVARIANT over arbitrary sequences of expansions: whatever the seed of the process, whatever state the
+    process is in, whatever items (at whatever positions) are expanded in whatever order - every item's expansion is
+    the pure function of its derive input.  By induction over the sequence, for every starting state. *)
+Lemma process_is_pure fs :
+  facts_ok fs = true ->
+  forall (E : externals) (ps : list located) (s : seed) (st : pstate),
+    run_process E fs s st ps = map (fun p => expand_pure_b E (snd p)) ps.
+Proof.
+  intros H E ps. induction ps as [|p r IH]; intros s st; [reflexivity|].
+  cbn [run_process step map]. rewrite (expand_model_b_pure E fs s _ _ (snd p) H). f_equal. apply IH.
+Qed.
+
+(** two processes (different seeds, different starting states, different surrounding items, different positions of
+    the item): the same derive input gets the same expansion in both *)
+Lemma same_input_same_expansion fs :
+  facts_ok fs = true ->
+  forall (E : externals) (x : input) (s1 s2 : seed) (st1 st2 : pstate) (pre1 post1 pre2 post2 : list located)
+         (pos1 pos2 : N),
+    nth (List.length pre1) (run_process E fs s1 st1 (pre1 ++ (pos1, x) :: post1)) []
+    = nth (List.length pre2) (run_process E fs s2 st2 (pre2 ++ (pos2, x) :: post2)) [].
+Proof.
+  intros H E x s1 s2 st1 st2 pre1 post1 pre2 post2 pos1 pos2.
+  rewrite !(process_is_pure fs H). rewrite !map_app. cbn [map snd].
+  rewrite <- (map_length (fun p => expand_pure_b E (snd p)) pre1) at 1.
+  rewrite <- (map_length (fun p => expand_pure_b E (snd p)) pre2) at 1.
+  rewrite !nth_middle. reflexivity.
+Qed.
+
+(** permuting the items of a crate permutes the expansions and changes none of them *)
+Lemma interleaving_irrelevant fs :
+  facts_ok fs = true ->
+  forall (E : externals) (ps qs : list located) (s1 s2 : seed) (st1 st2 : pstate),
+    Permutation (map snd ps) (map snd qs) ->
+    Permutation (run_process E fs s1 st1 ps) (run_process E fs s2 st2 qs).
+Proof.
+  intros H E ps qs s1 s2 st1 st2 HP. rewrite !(process_is_pure fs H).
+  rewrite <- !(map_map snd (expand_pure_b E)). apply Permutation_map, HP.
+Qed.
+
+(** order in the bucket model: a permutation of the insertion-ordered entries, sorted by bucket of the FIXED hash in
+    a table whose bucket count is a function of the number of entries alone *)
+Lemma bucket_order_is_function_of_input fs :
+  facts_ok fs = true ->
+  forall (E : externals) (x : input),
+  exists order : list (str * list str),
+    order = t_iter (ext_hash E) fixed_seed (t_fill t_new (groups_of E x))
+    /\ Permutation (groups_of E x) order
+    /\ Sorted (fun a b => bucket (ext_hash E) fixed_seed (t_fit 0 (List.length (groups_of E x))) (fst a)
+                          <= bucket (ext_hash E) fixed_seed (t_fit 0 (List.length (groups_of E x))) (fst b)) order
+    /\ forall (s : seed) (h : history) (scratch : table),
+         expand_model_b E fs s h scratch x = flat_map (render_group x) order.
+Proof.
+  intros H E x. eexists. split; [reflexivity|]. split; [apply (t_iter_perm _ _ (t_fill t_new (groups_of E x)))|]. split.
+  - apply (t_iter_sorted (ext_hash E) fixed_seed (t_fill t_new (groups_of E x))).
+  - intros s h scratch. rewrite (expand_model_b_pure E fs s h scratch x H). reflexivity.
+Qed.
+
+(** position independence on the first-level model as well: the position travels in the history *)
+Lemma position_irrelevant fs :
+  facts_ok fs = true ->
+  forall (E : externals) (s : seed) (h : history) (pos1 pos2 : N) (x : input),
+    expand_model E fs s ([pos1] :: h) x = expand_model E fs s ([pos2] :: h) x.
+Proof. intros H E s h p1 p2 x. apply (seed_history_irrelevant fs H). Qed.
+
+(* ------------------------------------------------------------------ sensitivity: every fact kind is needed *)
+
+Definition ex_input : input := (DTryInto, ex_item).
+
+(** any kind of surviving state / environment / position read in macro code lets the model's output depend on the history *)
+Lemma every_state_kind_matters :
+  forall k : state_kind,
+    facts_ok (facts_with_state k) = false
+    /\ exists h1 h2 : history,
+         expand_model toy_ext (facts_with_state k) 0 h1 ex_input <> expand_model toy_ext (facts_with_state k) 0 h2 ex_input.
+Proof.
+  intros k. split; [destruct k; reflexivity|]. exists [], [[1]]. destruct k; vm_compute; discriminate.
+Qed.
+
+(** any resolution of a hash-collection mention other than the crate's alias lets it depend on the seed *)
+Lemma every_bad_origin_matters :
+  forall o : origin, (o = OStd \/ o = OUnresolved) ->
+    facts_ok (facts_with_origin o) = false
+    /\ exists s1 s2 : seed,
+         expand_model toy_ext (facts_with_origin o) s1 [] ex_input <> expand_model toy_ext (facts_with_origin o) s2 [] ex_input.
+Proof.
+  intros o [->| ->]; (split; [reflexivity|]); exists 0, 1; vm_compute; discriminate.
+Qed.
+
+(** and so does any way of building the alias other than std's table + field-less state + constant-key SipHasher *)
+Definition bad_aliases : list alias_def :=
+  [ {| al_kind := KHashMap; al_std_base := false; al_state := StUnitStruct; al_hasher := HtDefaultHasher; al_ctor := CtDefault |};
+    {| al_kind := KHashMap; al_std_base := true; al_state := StFieldStruct; al_hasher := HtDefaultHasher; al_ctor := CtDefault |};
+    {| al_kind := KHashMap; al_std_base := true; al_state := StRandomState; al_hasher := HtDefaultHasher; al_ctor := CtDefault |};
+    {| al_kind := KHashMap; al_std_base := true; al_state := StMissing; al_hasher := HtDefaultHasher; al_ctor := CtDefault |};
+    {| al_kind := KHashMap; al_std_base := true; al_state := StUnknown; al_hasher := HtDefaultHasher; al_ctor := CtDefault |};
+    {| al_kind := KHashMap; al_std_base := true; al_state := StUnitStruct; al_hasher := HtOther; al_ctor := CtDefault |};
+    {| al_kind := KHashMap; al_std_base := true; al_state := StUnitStruct; al_hasher := HtDefaultHasher; al_ctor := CtOther |} ].
+
+Lemma every_bad_alias_matters :
+  forall a : alias_def, In a bad_aliases ->
+    facts_ok (facts_with_alias a) = false
+    /\ exists s1 s2 : seed,
+         expand_model toy_ext (facts_with_alias a) s1 [] ex_input <> expand_model toy_ext (facts_with_alias a) s2 [] ex_input.
+Proof.
+  intros a Ha. cbn [bad_aliases In] in Ha.
+  repeat (destruct Ha as [<-|Ha]; [split; [reflexivity|exists 0, 1; vm_compute; discriminate]|]). destruct Ha.
+Qed.
+
+(** a scratch table that survives expansions (thread_local / static + drain): a SMALL enum expanded after a LARGE one
+    inherits the larger bucket count and its arms come out in another order (the mechanism of the seeded change) *)
+Definition small_enum : input :=
+  (DFromStr, {| it_name := [76]; it_params := []; it_field_types := [];
+                it_variants := map (fun n => {| v_name := n; v_types := []; v_refs := [] |})
+                                   [[65]; [66]; [67]];
+                it_legacy := [] |}).
+Definition big_table : table := {| t_cap := 16; t_ents := [] |}.
+
+Example scratch_table_matters :
+  facts_ok (facts_with_state SThreadLocal) = false /\
+  expand_model_b toy_ext (facts_with_state SThreadLocal) 0 [] t_new small_enum
+  <> expand_model_b toy_ext (facts_with_state SThreadLocal) 0 [] big_table small_enum.
+Proof. split; [reflexivity|]. vm_compute. discriminate. Qed.
+
+(** ... while with the facts the very same call ignores the scratch table, the seed, the history (computed instance) *)
+Example scratch_table_ignored :
+  expand_model_b toy_ext base_facts 0 [] t_new small_enum
+  = expand_model_b toy_ext base_facts 77 [[1]; [2]] big_table small_enum.
+Proof. vm_compute. reflexivity. Qed.
+
+Example process_instance :
+  run_process toy_ext base_facts 5 ps_init [(86, small_enum); (425, ex_input); (1001, small_enum)]
+  = [expand_pure_b toy_ext small_enum; expand_pure_b toy_ext ex_input; expand_pure_b toy_ext small_enum].
+Proof. vm_compute. reflexivity. Qed.
+
+Example table_growth : map (t_fit 0) [0; 1; 3; 4; 7; 8; 14; 15]%nat = [0; 4; 4; 8; 8; 16; 16; 32].
+Proof. reflexivity. Qed.
